@@ -763,7 +763,11 @@ class Fn:
                         if (src['l'], pl['p'][0]['f']) in seen:
                             carried = True
                             continue            # carried round the loop
-                        out.extend(self.split_defs({'copy': {'l': src['l'], 'p': list(pl['p'])}}, (e.block, e.idx), depth + 1, seen))
+                        sub = self.split_defs({'copy': {'l': src['l'], 'p': list(pl['p'])}}, (e.block, e.idx), depth + 1, seen)
+                        if len(sub) > 1 and len(evs) > 1:
+                            # one of several definitions: one entry, located at this copy (see the literal case below)
+                            sub = [(e.block, e.idx, frozenset().union(*[t_ for (_b, _i, t_) in sub]))]
+                        out.extend(sub)
                     elif rv['k'] == 'agg' and (rv.get('agg') == 'tuple' or (
                             rv.get('agg') == 'adt' and not (self.b.crate.adts.get(rv.get('adt')) or {'is_enum': True}).get('is_enum'))) and \
                             pl['p'][0]['f'] < len(rv['fields']):
@@ -775,9 +779,11 @@ class Fn:
                             carried = True
                             continue
                         sub = self.split_defs(fo, (e.block, e.idx), depth + 1, seen)
-                        if len(sub) > 1:
-                            # the literal is the definition of this component: one entry, located at the literal, whatever
-                            # the history of the value put into it (`Candidate { index: nearest, .. }` with nearest found by a scan)
+                        if len(sub) > 1 and len(evs) > 1:
+                            # one of several literals: it is the definition of this component, one entry located at the literal,
+                            # whatever the history of the value put into it (`Candidate { index: nearest, .. }` with nearest found
+                            # by a scan) -- as for a variable with several definitions.  A single literal (the tuple a helper
+                            # returns) is transparent: the definitions of its component are followed.
                             merged = frozenset().union(*[t_ for (_b, _i, t_) in sub])
                             sub = [(e.block, e.idx, merged)]
                         out.extend(sub)
